@@ -113,6 +113,15 @@ def conditions(tier):
                                  bounds='(element-type X [Y]) x (array [length=existing|missing|self, fixed-size, '
                                         'zero-terminated]) on every value type',
                                  finding_classifier=_classify))
+    # hash tables: (element-type K V), both symbolic
+    for pos in (0, 1):
+        conds.append(ch.Cond(
+            'h_c05', 'value_types', [('ckind', 'int'), ('elt', 'int'), ('elt2', 'int'), ('transfer', 'int')],
+            pre=['0 <= ckind <= 4', '1 <= elt < %d' % NU, '0 <= elt2 < %d' % NU, 'transfer in (0, 3)'],
+            fixed=dict(tkind=11, pos=pos, type_override=0, array=0, exempt=False), timeout=T,
+            name='containers[GHashTable key/value,pos=%d]' % pos,
+            bounds='(element-type K V) on GHashTable*, K and V over {%s}' % ', '.join(pipe.USER_TYPES[1:]),
+            finding_classifier=_classify))
     for exempt in (False, True):
         conds.append(ch.Cond(
             'h_c05', 'value_types', [('ckind', 'int'), ('pos', 'int'), ('type_override', 'int')],
